@@ -29,7 +29,7 @@ func init() {
 		Plan: func(tier string) []Child {
 			var out []Child
 			if tier == "quick" {
-				cfg := [][2]int{{1, 1}, {1, 4}, {3, 1}, {3, 4}, {16, 4}, {8, 1}}
+				cfg := [][2]int{{1, 1}, {1, 4}, {3, 1}, {3, 64}, {16, 4}, {8, 1}}
 				for i, k := range cfg {
 					out = append(out, Child{Flavour: "plain", NCPU: k[0], GOMAXPROCS: k[1], Shard: i, NShards: len(cfg), Params: map[string]string{"sched": fmt.Sprint(1 + i%2)}})
 				}
@@ -91,6 +91,12 @@ func c03cases(thorough bool) []c03case {
 	for i, k := range []int{9, 9, 10, 9} {
 		out = append(out, c03case{id: fmt.Sprintf("multi/limb-structured/%d", i), n: []int{1, 1, 2, 3}[i], pat: 9, forceKind: k, alwaysRef: true})
 	}
+	// statements whose polynomials are all constant (g = 0, D = identity), then mixed ones, then constants again
+	out = append(out,
+		c03case{id: "multi/all-constant/a", n: 3, pat: 1, forceKind: 2, alwaysRef: true},
+		c03case{id: "multi/all-constant/zero", n: 2, pat: 1, forceKind: 1, alwaysRef: true},
+		c03case{id: "multi/constant-and-random", n: 4, pat: 1, forceKind: -1, alwaysRef: true},
+		c03case{id: "multi/all-constant/b", n: 5, pat: 9, forceKind: 4, alwaysRef: true})
 	r := ref.R
 	names := []string{"0", "255", "256", "2101", "r-1", "2^200"}
 	zs := []*big.Int{big.NewInt(0), big.NewInt(255), big.NewInt(256), big.NewInt(2101), new(big.Int).Sub(r, bigOne), new(big.Int).Lsh(bigOne, 200)}
@@ -145,9 +151,13 @@ func runC03(c *mon.Ctx) {
 			} else {
 				m := 1 + rng.Intn(6)
 				var forced []int
-				if cs.forceKind != 0 {
+				if cs.forceKind > 0 {
 					m = 1 + rng.Intn(2)
 					forced = []int{cs.forceKind, cs.forceKind}
+				}
+				if cs.forceKind == -1 {
+					m = 3
+					forced = []int{2, 0, 1} // constant first (lowest index with the consecutive pattern), then random, then zero
 				}
 				polys := makePolys(env, rng, m, forced...)
 				s = genStatement(env, rng, cs.n, cs.pat, polys)
